@@ -1,5 +1,6 @@
 import Driver.Solver
 import Driver.Lexer
+import Driver.Tokens
 /-
 Correspondence driver.  `.lake/build/bin/fsicdrv < requests > replies`  (or `lake env lean --run Main.lean`)
 Each request line is `<kind>\t<json>`; each reply is one line (`!<message>` on a malformed request).
@@ -8,7 +9,7 @@ Every model family registers its handlers in its own `Driver/<Family>.lean`; thi
 open Lean
 
 def allHandlers : List (String × (Json → Except String String)) :=
-  Drv.Solver.handlers ++ Drv.Lexer.handlers
+  Drv.Solver.handlers ++ Drv.Lexer.handlers ++ Drv.Tokens.handlers
 
 def dispatch (kind : String) (j : Json) : Except String String :=
   match allHandlers.lookup kind with
